@@ -119,6 +119,13 @@ func finish(ps *PropertySpec, tier string, seed int, results []*HarnessResult, l
 			inconclusive = append(inconclusive, fmt.Sprintf("%s: ENCODER-MISMATCH witness did not reproduce natively (%s): %s", v.Harness, status, v.Key))
 		}
 	}
+	if !noReplay {
+		nv, bad := validateTraces(ps, results, outDir)
+		validated += nv
+		for _, b := range bad {
+			inconclusive = append(inconclusive, "ENCODER-MISMATCH (trace validation): "+b)
+		}
+	}
 	seenKnown := map[string]bool{}
 	for _, v := range knownHit {
 		if !seenKnown[v.Key] {
